@@ -1,4 +1,4 @@
-CONSTANT SHAPESET = "small"
+CONSTANT SHAPESET = "large"
 SPECIFICATION Spec
 INVARIANTS LastAssigned TypeOK LogLength
 VIEW VIEW_NoLog
